@@ -93,14 +93,16 @@ ParseCertBlock21(e) ==
   /\ certEnd' = e.endOff /\ st' = "Sig21"
   /\ UNCHANGED <<hdr, cur, sec, needCert, hm, body, left, cmdAt, cov, sigEnd, macSum, dec>>
 
+\* SB 2.1: the header's first_boot_tag_block must be the block right behind the signature (clause kept apart so that the trace form can report
+\* it by name and still validate the rest of the file)
+FirstTag21Ok(e) == hdr.firstTag = (e.sigAt + e.sigLen) \div 16
 VerifySignature21(e) ==
   /\ st = "Sig21" /\ e.ok
   /\ e.frm = 0 /\ e.to = certEnd + (IF ShaFlag THEN 32 ELSE 0) /\ e.sigAt = e.to   \* header, MAC, key blob, cert block [, SHA-256]
   /\ e.sigLen \in SigLens /\ (e.sigAt + e.sigLen) % 16 = 0
-  /\ hdr.firstTag = (e.sigAt + e.sigLen) \div 16                         \* first boot tag right behind the signature
   /\ sigEnd' = e.sigAt + e.sigLen
   /\ cov' = cov \cup Blocks(0, (e.sigAt + e.sigLen) \div 16)
-  /\ cur' = hdr.firstTag /\ st' = IF ShaFlag THEN "Sha" ELSE "Tag"
+  /\ cur' = (e.sigAt + e.sigLen) \div 16 /\ st' = IF ShaFlag THEN "Sha" ELSE "Tag"
   /\ UNCHANGED <<hdr, sec, needCert, hm, body, left, cmdAt, certEnd, macSum, dec>>
 
 CheckSha(e) ==
@@ -117,7 +119,7 @@ SectionTag(e) ==
   /\ IF needCert
      THEN /\ e.cert /\ e.markOk /\ (e.flags \div 2) % 2 = 1 /\ e.hmacCount = 1          \* clear-text section marked 'sign'
      ELSE /\ ~e.cert /\ e.sec = sec /\ e.flags % 4 = 1                   \* bootable, encrypted
-          /\ (sec = 0 => e.at = hdr.firstTag /\ e.uid = hdr.firstId)     \* the header points at the first boot section
+          /\ (sec = 0 => e.uid = hdr.firstId)                            \* the header names the first boot section
   /\ hm' = [n |-> e.hmacCount, per |-> e.count \div e.hmacCount, count |-> e.count, k |-> 0]
   /\ body' = cur + 3 + 2 * e.hmacCount /\ left' = e.count /\ cmdAt' = cur + 3 + 2 * e.hmacCount
   /\ cur + 3 + 2 * e.hmacCount + e.count <= hdr.imageBlocks
